@@ -668,8 +668,17 @@ pub trait DnsRecordExt: fmt::Debug {
 
     /// Returns true if another record has matched content,
     /// and if its TTL is at least half of this record's.
+    ///
+    /// The cache-flush bit is not part of the record class (RFC 6762 section 10.2)
+    /// and is never set in a Known-Answer list, hence it is not compared here.
     fn suppressed_by_answer(&self, other: &dyn DnsRecordExt) -> bool {
-        self.matches(other) && (other.get_record().ttl > self.get_record().ttl / 2)
+        let mine = &self.get_record().entry;
+        let theirs = &other.get_record().entry;
+        mine.name == theirs.name
+            && mine.ty == theirs.ty
+            && mine.class == theirs.class
+            && self.rrdata_match(other)
+            && (other.get_record().ttl > self.get_record().ttl / 2)
     }
 
     /// Required by RFC 6762 Section 7.1: Known-Answer Suppression.
